@@ -50,7 +50,7 @@ pub fn long(ctx: &Ctx) {
     }
 }
 
-const N_OPS6: usize = 16;
+const N_OPS6: usize = 18;
 fn op6(k: usize, pos: usize) -> Op {
     let id = (pos as u64 + 1) * 50 + k as u64;
     match k {
@@ -62,6 +62,18 @@ fn op6(k: usize, pos: usize) -> Op {
         5..=9 => Op::Image(image(k - 5, true, 30 + 7 * k, id)),
         10..=13 => Op::Image(image(k - 10, false, 1000 + k, id)),
         14 => Op::Image(image(4, true, 0, id)),
+        // two representations of one image, only the first / only the second with a mask
+        16 | 17 => {
+            let mut i = image(4, true, 60 + k, id);
+            if k == 16 {
+                if let Some(p) = &mut i.projection {
+                    p.mask = None;
+                }
+            } else if let Some(v) = &mut i.visual {
+                v.mask = None;
+            }
+            Op::Image(i)
+        }
         _ => Op::Cloud(cloud(crate::cat::xyz(crate::cat::F32), 2, id)),
     }
 }
@@ -118,6 +130,54 @@ pub fn many(ctx: &Ctx) {
         ctx.observe_u64(explore::fnv(&w.bytes));
         ctx.nontrivial();
     }
+}
+
+/// foreign elements named like the blob elements inside image representations (in front of, between
+/// and behind the standard ones): every descriptor still leads to the image's own data
+pub fn foreign(ctx: &Ctx) {
+    let bk = [0usize, 1, 2][ctx.pick("document", 3)];
+    let d = match crate::c18::doc(bk) {
+        Ok(d) => d,
+        Err(e) => {
+            ctx.machinery_error(format!("base document {bk}: {e}"));
+            return;
+        }
+    };
+    let reps: Vec<(String, usize)> = d.child_positions.iter().filter(|(p, _)| p.ends_with("Representation") || p == "visualReferenceRepresentation").cloned().collect();
+    if reps.is_empty() {
+        return;
+    }
+    let pi = ctx.pick("position", reps.len());
+    let (parent, at) = reps[pi].clone();
+    let Ok(base_report) = crate::c18::report(&d.bytes) else { return };
+    ctx.describe(|| format!("document {bk}: foreign jpegImage / pngImage / imageMask elements (blob typed, and inside a foreign wrapper) inserted into <{parent}> at XML byte {at}"));
+    for name in ["jpegImage", "pngImage", "imageMask"] {
+        for sh in [2usize, 4] {
+            ctx.evals(1);
+            let ins = crate::c18::shape(name, sh);
+            let nx = format!("{}{}{}", &d.xml[..at], ins, &d.xml[at..]);
+            let bytes = crate::c18::rebuild(&d, &nx);
+            match crate::harness::guarded(|| crate::c18::report(&bytes)) {
+                Ok(Ok(r)) if r == base_report => {}
+                Ok(Ok(r)) => {
+                    let k = r.iter().zip(base_report.iter()).position(|(a, b)| a != b);
+                    let (a, b) = k.map(|k| (r[k].clone(), base_report[k].clone())).unwrap_or_default();
+                    ctx.violation(format!("{P}/foreign-blob-element/{parent}/{name}"), format!("with {ins} inserted into <{parent}> the image data changes: now {} | before {}", a.chars().take(300).collect::<String>(), b.chars().take(300).collect::<String>()));
+                    return;
+                }
+                Ok(Err(e)) => {
+                    ctx.violation(format!("{P}/foreign-blob-element/unreadable"), format!("with {ins} inserted into <{parent}> the file cannot be opened: {e}"));
+                    return;
+                }
+                Err(pi) => {
+                    ctx.violation(format!("{P}/read-panic/{}", pi.class()), format!("reader panicked at {} ({})", pi.loc, pi.msg));
+                    return;
+                }
+            }
+        }
+    }
+    ctx.observe_u64((bk * 1000 + pi) as u64);
+    ctx.nontrivial();
 }
 
 /// descriptor tampering: for any descriptor the reader returns Err or exactly `length` bytes equal
